@@ -3,6 +3,10 @@
 P=$1
 for v in a b; do
   if [ -d /tmp/wt-$P/seeded/$v ]; then
-    echo "== $P/$v" ; /verif/tools/confirm_seed.sh /tmp/wt-$P /tmp/wt-$P/seeded/$v seeded_$v
+    F="seeded_$v"
+    if grep -q "^+++ b/tests/" /tmp/wt-$P/seeded/$v/demo.diff; then
+      T=$(grep "^+++ b/tests/" /tmp/wt-$P/seeded/$v/demo.diff | head -1 | sed 's#+++ b/tests/##; s#\.rs##'); F="--test $T"
+    fi
+    echo "== $P/$v" ; /verif/tools/confirm_seed.sh /tmp/wt-$P /tmp/wt-$P/seeded/$v "$F"
   fi
 done > /tmp/confirm-$P.txt 2>&1
